@@ -710,4 +710,60 @@ theorem dneed_le_bound (s : Store) : dneed s [] ≤ bound s := by
 theorem decode_total (s : Store) (root : Nat) (h : AliasFlat s) : decodeYAML s root ≠ .error .fuel :=
   (decode_total_aux s h (bound s)).1 _ _ (dneed_le_bound s)
 
+/-! ### The two counterexamples behind the changes to the statements / the bound -/
+
+instance instDecidableEqExcept {ε α : Type} [DecidableEq ε] [DecidableEq α] : DecidableEq (Except ε α)
+  | .ok a, .ok b => if h : a = b then isTrue (h ▸ rfl) else isFalse (fun h' => h (by cases h'; rfl))
+  | .error a, .error b => if h : a = b then isTrue (h ▸ rfl) else isFalse (fun h' => h (by cases h'; rfl))
+  | .ok _, .error _ => isFalse (fun h => by cases h)
+  | .error _, .ok _ => isFalse (fun h => by cases h)
+
+/-- Decidable test for "ran out of fuel" (`Val` has no `DecidableEq`). -/
+def isFuel {α : Type} : Except Err α → Bool
+  | .error .fuel => true
+  | _ => false
+
+theorem isFuel_iff {α : Type} (x : Except Err α) : isFuel x = true ↔ x = .error .fuel := by
+  unfold isFuel; split <;> simp_all
+
+/-- `{ *a : v }` where the key node `*a` is an alias whose target is itself (hand-built; not producible by
+    yaml.v3).  `canonicalMapKey` recurses forever in Go; the model runs out of any fuel. -/
+def aliasLoopStore : Store :=
+  [ { kind := .mapping, isMerge := false, content := [1, 2] },
+    { kind := .alias, isMerge := false, aliasTo := some 1 },
+    { kind := .scalar, isMerge := false, decoded := some (.str "v"), keyStr := some "v" } ]
+
+theorem aliasLoop_counterexample :
+    rangeMap aliasLoopStore (bound aliasLoopStore) 0 = .error .fuel ∧
+    decodeYAML aliasLoopStore 0 = .error .fuel ∧ ¬ AliasFlat aliasLoopStore := by
+  refine ⟨by decide, (isFuel_iff _).mp (by decide), fun h => ?_⟩
+  exact h 1 _ 1 _ rfl rfl rfl rfl rfl
+
+/-- `d` nested mappings `{<<: [m₀ … m_{k-1}], k: <next>}` sharing one sequence of `k` sources with `c`
+    distinct keys each: every level's yielded list has `k·c + 1` pairs although no content list is longer
+    than `max k (2c)`. -/
+def wideMergeStore (k c d : Nat) : Store :=
+  let scalar (isMerge : Bool) (str : String) : NodeRec :=
+    { kind := .scalar, isMerge := isMerge, keyStr := some str, decoded := some (.str str) }
+  let base := 4 + k + k * c
+  [scalar true "<<",
+   { kind := .sequence, isMerge := false, content := (List.range k).map (· + 4) },
+   scalar false "k", scalar false "v"]
+  ++ (List.range k).map (fun j =>
+        { kind := .mapping, isMerge := false, content := ((List.range c).map fun x => [4 + k + j * c + x, 3]).flatten })
+  ++ (List.range (k * c)).map (fun x => scalar false (String.ofList (List.replicate (x + 1) 'a')))
+  ++ (List.range d).map (fun j =>
+        { kind := .mapping, isMerge := false, content := [0, 1, 2, if j + 1 < d then base + j + 1 else 3] })
+
+/-- With the bound the model first used, `(|store|+2)·(maxContent+3)`, decoding this 53-node acyclic,
+    alias-free document ran out of fuel (and it does not with the corrected `bound`). -/
+theorem oldBound_counterexample :
+    let s := wideMergeStore 6 3 25
+    decode s ((s.length + 2) * (maxContent s + 3)) [] (some 28) = .error .fuel ∧
+    decodeYAML s 28 ≠ .error .fuel := by
+  intro s
+  have h : isFuel (decode s ((s.length + 2) * (maxContent s + 3)) [] (some 28)) = true ∧
+      isFuel (decodeYAML s 28) = false := by decide +kernel
+  exact ⟨(isFuel_iff _).mp h.1, fun he => by rw [(isFuel_iff _).mpr he] at h; exact absurd h.2 (by decide)⟩
+
 end GoPipeline.Yaml
